@@ -115,6 +115,48 @@ def type_histories(ctx, res):
         pyg.fresh_process_state()
 
 
+def same_second_rewrites(ctx, res):
+    """A document replaced by another of a different length with the same modification time (two writes within a second,
+    cp -p, rsync -t), one server process: each answer is framed for the bytes it carries."""
+    tree = pyg.Tree()
+    try:
+        cfg = pyg.make_config(tree.root, **{"handlers.dir.DirHandler|cachetime": "0"})
+        pyg.fresh_process_state()
+        for name in ("doc.txt", "page.html", "data.bin", "sub/deep.txt"):
+            versions = [b"first version\n" * 300, b"2nd\n", b"third version, the longest of them all\n" * 700, b""]
+            for vi, body in enumerate(versions):
+                tree.write("w/" + name, body)
+                os.utime(tree.path("w/" + name), (1_600_000_000, 1_600_000_000))
+                if vi == 0:
+                    pyg.request(reqs.build("gopher", "/w"), cfg, reset=False)          # a listing builds (and may remember) every entry
+                for p_, g in (("gopherp", "+"), ("gopherp", "!"), ("http", "+"), ("gopherp", "$")):
+                    sel = "/w/" + name if g != "$" else "/w" + ("/sub" if "/" in name else "")
+                    r = pyg.request(reqs.build(p_, sel, gplus=g), cfg, tls=reqs.TLS[p_], reset=False)
+                    res.evaluations += 1
+                    res.nontrivial.add(("same-second", name, vi, p_, g))
+                    out = r.out or b""
+                    bad = None
+                    if g == "+" and p_ == "gopherp":
+                        m = re.match(rb"\+(-?\d+)\r\n", out)
+                        if not m or (int(m.group(1)) >= 0 and (int(m.group(1)) != len(body) or out[m.end():] != body)):
+                            bad = "length header %r for %d bytes" % (out[:12], len(body))
+                    elif p_ == "http":
+                        if reqs.body_of("http", out) != body:
+                            bad = "body of %d bytes for a file of %d" % (len(reqs.body_of("http", out) or b""), len(body))
+                    else:
+                        k = len(body) // 1024
+                        m = re.search(rb": <(\d+)k>", out[out.find(name.split("/")[-1].encode()):] if g == "$" else out)
+                        if m and int(m.group(1)) != k:
+                            bad = "+VIEWS says <%sk> for a file of %d bytes" % (m.group(1).decode(), len(body))
+                    if bad:
+                        res.violation("C04:stale-after-same-second-rewrite", "a document rewritten within its modification second is framed for its old bytes",
+                                      {"document": name, "version": vi, "protocol": p_, "form": g}, observed=bad, required="framing of the current bytes",
+                                      replay={"type_history": True, "same_second": name, "version": vi})
+    finally:
+        tree.close()
+        pyg.fresh_process_state()
+
+
 def encoding_option(ctx, res):
     """The `encoding` option as an administrator may write it -- a list that leaves out suffixes Python knows by itself
     (.gz, .xz, .Z, .br): it replaces the table, so those suffixes are content types again, in every protocol."""
@@ -500,6 +542,7 @@ def run(ctx):
     sitecorr.compare_answers(ctx, res, ctx.n(4, 40), "C04")
     overlapping_transfers(ctx, res)
     type_histories(ctx, res)
+    same_second_rewrites(ctx, res)
     encoding_option(ctx, res)
     res.degraded = list(pyg.degraded) + [d for d in res.degraded if d not in pyg.degraded]
     return res
